@@ -7,12 +7,12 @@ TEXT = {
     "uri": "jr://images/x.png", "ref": "${q0}", "func": "now()", "call": "concat('a', 'b')",
     "plus_sp": " + ", "minus_sp": " - ", "star_sp": " * ", "div_sp": " div ", "mod_sp": " mod ",
     "minus": "-", "plus": "+", "star": "*", "pipe": "|", "paren": "(x)", "bracket": "[1]", "brace": "{x}",
-    "lit": "'a b'", "lit_op": "'q - r'", "comp": " = ", "punct": ",",
+    "lit": "'a b'", "lit_op": "'q - r'", "comp": " = ", "punct": ",", "remark": " (note 2)",
 }
 ALT = {"comp": [" = ", " < ", " > ", " != "], "punct": [",", ":", ";", "!", "?", "@", "#", "%", "/"], "word": ["hello", "abc", "N_A"], "func": ["now()", "today()", "uuid()"],
        "call": ["concat('a', 'b')", "string-length('abc')", "if(1 = 1, 'a', 'b')"], "uri": ["jr://images/x.png", "https://mysite.com/p"], "num": ["7", "12"], "dec": ["3.5", ".5"]}
 GLUED = {"minus", "plus", "star", "pipe", "paren", "bracket", "brace", "punct"}          # written without blanks around them
-OWN_BLANKS = {"plus_sp", "minus_sp", "star_sp", "div_sp", "mod_sp", "comp"}            # carry their own blanks
+OWN_BLANKS = {"plus_sp", "minus_sp", "star_sp", "div_sp", "mod_sp", "comp", "remark"}            # carry their own blanks
 HYPHEN_TYPES = ["date", "dateTime", "geopoint", "geotrace", "geoshape"]
 OTHER_TYPES = ["text", "integer", "decimal", "select_one", "calculate", None]
 
